@@ -10,7 +10,9 @@ package main
 // after: every ref, HEAD, the index bytes, the work tree, the local configuration (keys, values, comment
 // lines), every other file of the git directory; then git fsck --strict, a mirror clone over the transport
 // with transfer.fsckObjects + gc + fsck, a push into a bare repository with receive.fsckObjects, and every
-// tree object reachable from git-bug's references. coq/K_C15.v compares with the frame model (Frame.v).
+// tree and commit object that appeared in the object store during the session (entries as stored; author and
+// committer lines; the "extra" tree of every commit made of several operations). coq/K_C15.v compares with the
+// frame model (Frame.v).
 
 import (
 	"bytes"
@@ -43,6 +45,7 @@ type c15Action struct {
 	Remote string `json:"remote,omitempty"`
 	Cwd    string `json:"cwd,omitempty"` // run the binary from this sub-directory of the work tree
 	Short  bool   `json:"short,omitempty"`
+	F      []int  `json:"f,omitempty"` // "multi": number of attached files of each staged operation
 }
 
 type c15Host struct {
@@ -53,6 +56,10 @@ type c15Host struct {
 	Notes        bool     `json:"notes,omitempty"`
 	SecondRemote bool     `json:"second_remote,omitempty"`
 	Linked       bool     `json:"linked,omitempty"` // a linked work tree (git worktree add); actions with cwd "@wt" run from there
+	// what the host's configuration says about the person: "" (user.name = Host User), "user-angle" (user.name = "Jane Doe
+	// <jane@acme.com>", the common mistake), "user-email-angle" (user.email = "<jane@acme.com>"), "author-set" (author.* and
+	// committer.* set), "author-half" (only author.name), "author-angle" (author.name / committer.email with angle brackets)
+	Ident string `json:"ident,omitempty"`
 }
 
 type c15Input struct {
@@ -91,6 +98,18 @@ func c15GenSession(r *Rand, i int, maxActions int) c15Input {
 	in.Host.Notes = r.Chance(1, 2)
 	in.Host.SecondRemote = r.Chance(1, 3)
 	in.Host.Linked = r.Chance(1, 4)
+	switch x := r.Intn(24); {
+	case x < 4:
+		in.Host.Ident = "user-angle"
+	case x < 6:
+		in.Host.Ident = "user-email-angle"
+	case x < 9:
+		in.Host.Ident = "author-set"
+	case x < 11:
+		in.Host.Ident = "author-half"
+	case x < 13:
+		in.Host.Ident = "author-angle"
+	}
 	mode := []string{"cli", "lib", "mixed"}[r.Intn(3)]
 	via := func() string {
 		switch mode {
@@ -119,11 +138,25 @@ func c15GenSession(r *Rand, i int, maxActions int) c15Input {
 		}
 		return "origin"
 	}
+	// several operations staged on one bug and committed together (what the web and terminal interfaces and the
+	// bridges do through the library): the files of all of them are referenced by one "extra" tree
+	multi := func(a *c15Action, create bool) {
+		a.K, a.Via, a.S = "multi", "lib", ""
+		if create {
+			a.S = "new"
+		}
+		for k := r.Range(2, 4); k > 0; k-- {
+			a.F = append(a.F, []int{0, 1, 1, 1, 2, 3}[r.Intn(6)])
+		}
+	}
 	in.Actions = append(in.Actions, c15Action{K: "user-new", Via: via(), Cwd: cwd()})
 	for k := r.Range(0, 2); k > 0; k-- {
 		a := c15Action{K: "bug-new", Via: via(), Cwd: cwd()}
 		if a.Via == "lib" && r.Chance(1, 2) {
 			a.N = r.Range(1, 12)
+		} else if a.Via == "lib" && r.Chance(1, 2) {
+			a.E = r.Intn(1000)
+			multi(&a, true)
 		}
 		in.Actions = append(in.Actions, a)
 	}
@@ -131,7 +164,7 @@ func c15GenSession(r *Rand, i int, maxActions int) c15Input {
 	wiped := false
 	for len(in.Actions) < n {
 		a := c15Action{Via: via(), E: r.Intn(1000), Cwd: cwd()}
-		switch x := r.Intn(40); {
+		switch x := r.Intn(43); {
 		case x < 6:
 			a.K = "bug-new"
 			if a.Via == "lib" && r.Chance(1, 2) {
@@ -183,8 +216,10 @@ func c15GenSession(r *Rand, i int, maxActions int) c15Input {
 			} else {
 				a.K = "user-adopt"
 			}
-		default:
+		case x < 40:
 			a.K, a.Via = "pack-refs", ""
+		default:
+			multi(&a, r.Chance(1, 4))
 		}
 		a.Short = a.Via == "cli" && r.Chance(1, 3)
 		in.Actions = append(in.Actions, a)
@@ -192,6 +227,10 @@ func c15GenSession(r *Rand, i int, maxActions int) c15Input {
 			in.Actions = append(in.Actions, c15Action{K: "wipe", Via: via()})
 			wiped = true
 		}
+	}
+	if !wiped && r.Chance(1, 8) {
+		// the session ends with git-bug being removed from the repository
+		in.Actions = append(in.Actions, c15Action{K: "wipe", Via: via(), Cwd: cwd()})
 	}
 	if r.Chance(1, 10) {
 		// an id that was never checked (library call): must not reach anything outside the namespace
@@ -214,8 +253,53 @@ func (c15Driver) Gen(r *Rand, tier string) []json.RawMessage {
 			res = append(res, mustJSON(c15Input{Host: c15Host{Cfg: cfg, Packed: via == "cli", Notes: true}, Actions: []c15Action{{K: "user-new", Via: via}}}))
 		}
 	}
+	res = append(res, c15Targeted()...)
 	for i := 0; i < n; i++ {
 		res = append(res, mustJSON(c15GenSession(r.Fork(), i, maxA)))
+	}
+	return res
+}
+
+// c15Targeted: fixed sessions aimed at three places where a frame or validity defect can hide from random sessions
+func c15Targeted() []json.RawMessage {
+	var res []json.RawMessage
+	// (1) everything git-bug has is removed again (git bug wipe / RemoveAll) on a host whose remotes have ordinary
+	// branches and whose repository has custom references named like the namespaces (bugs-triage, identities-old,
+	// refs/bugs-archive/..): only git-bug's own references may disappear
+	for _, via := range []string{"cli", "lib"} {
+		lib := via == "lib"
+		acts := []c15Action{{K: "user-new", Via: via}, {K: "bug-new", Via: via}, {K: "push", Via: via, Remote: "origin"},
+			{K: "peer", Remote: "origin", N: 2}, {K: "pull", Via: via, Remote: "origin"}}
+		if lib {
+			acts = append(acts, c15Action{K: "push", Via: via, Remote: "backup"})
+		}
+		acts = append(acts, c15Action{K: "wipe", Via: via})
+		res = append(res, mustJSON(c15Input{Host: c15Host{SecondRemote: lib, Packed: !lib, Notes: true}, Actions: acts}))
+		// removal of one entity at a time, then the rest
+		res = append(res, mustJSON(c15Input{Host: c15Host{SecondRemote: !lib, Packed: lib}, Actions: []c15Action{{K: "user-new", Via: via},
+			{K: "bug-new", Via: via}, {K: "bug-new", Via: via}, {K: "push", Via: via, Remote: "origin"}, {K: "rm", Via: via, E: 1},
+			{K: "wipe", Via: via}}}))
+	}
+	// (2) several operations with attachments in one commit: distinct files, files shared between operations, an
+	// operation without files in between, a bug created and commented before its first commit
+	for _, fs := range [][][]int{{{1, 1}, {2, 0, 1}, {1, 1, 1, 1}}, {{2, 1, 3}, {0, 1, 1}, {3, 3}}} {
+		acts := []c15Action{{K: "user-new", Via: "lib"}, {K: "bug-new", Via: "lib", N: 2}}
+		for i, f := range fs {
+			a := c15Action{K: "multi", Via: "lib", E: 3 + 5*i + len(res), F: f}
+			if i == 0 {
+				a.S = "new"
+			}
+			acts = append(acts, a)
+		}
+		acts = append(acts, c15Action{K: "comment", Via: "lib", E: 1, N: 2}, c15Action{K: "push", Via: "lib", Remote: "origin"})
+		res = append(res, mustJSON(c15Input{Host: c15Host{Stash: true}, Actions: acts}))
+	}
+	// (3) what the host's configuration says about the person must not make the commits malformed
+	for i, id := range []string{"user-angle", "user-angle", "user-email-angle", "author-set", "author-half", "author-angle"} {
+		via := []string{"cli", "lib"}[i%2]
+		res = append(res, mustJSON(c15Input{Host: c15Host{Ident: id, Notes: i%2 == 0}, Actions: []c15Action{{K: "user-new", Via: via},
+			{K: "bug-new", Via: via}, {K: "comment", Via: via}, {K: "peer", Remote: "origin", N: 1}, {K: "pull", Via: via, Remote: "origin"},
+			{K: "push", Via: via, Remote: "origin"}}}))
 	}
 	return res
 }
@@ -239,6 +323,16 @@ type c15Session struct {
 	tags    map[string]bool
 	wrote   bool
 	cwd     string // of the action being run
+
+	objsBefore map[string]string // the trees and commits the host had before the session
+	extras     []c15Extra        // per commit of several staged operations: their files, the "extra" tree that was stored
+}
+
+// c15Extra: one commit made of several operations
+type c15Extra struct {
+	Ops    [][]string // the files (blob ids) of each operation, as given to the library
+	Commit string
+	Tree   string // id of the tree stored as "extra" ("" = none)
 }
 
 func (s *c15Session) git(dir string, args ...string) (string, error) {
@@ -362,6 +456,27 @@ func (s *c15Session) setupHost() {
 	s.mustGit(h, "init", "-q", "-b", "main", ".")
 	s.mustGit(h, "config", "user.name", "Host User")
 	s.mustGit(h, "config", "user.email", "host@example.org")
+	switch s.in.Host.Ident {
+	case "user-angle":
+		// the common mistake: the address typed into the name; stock git copes (it strips '<' and '>')
+		s.mustGit(h, "config", "user.name", "Jane Doe <jane@acme.com>")
+		s.mustGit(h, "config", "user.email", "jane@acme.com")
+	case "user-email-angle":
+		s.mustGit(h, "config", "user.name", "Jane Doe")
+		s.mustGit(h, "config", "user.email", "<jane@acme.com>")
+	case "author-set":
+		s.mustGit(h, "config", "author.name", "Bug Author")
+		s.mustGit(h, "config", "author.email", "author@example.org")
+		s.mustGit(h, "config", "committer.name", "Bug Committer")
+		s.mustGit(h, "config", "committer.email", "committer@example.org")
+	case "author-half":
+		s.mustGit(h, "config", "author.name", "Only Author")
+	case "author-angle":
+		s.mustGit(h, "config", "author.name", "Jane Doe <jane@acme.com>")
+		s.mustGit(h, "config", "author.email", "jane@acme.com")
+		s.mustGit(h, "config", "committer.name", "Jane Doe")
+		s.mustGit(h, "config", "committer.email", "<jane@acme.com>")
+	}
 	c15Write(filepath.Join(h, "a.txt"), "alpha\n", 0o644)
 	c15Write(filepath.Join(h, "d", "b.txt"), "beta\n", 0o644)
 	c15Write(filepath.Join(h, "d", "sp ace.txt"), "space\n", 0o644)
@@ -377,6 +492,9 @@ func (s *c15Session) setupHost() {
 	c15Write(filepath.Join(h, "a.txt"), "alpha\nsecond\n", 0o644)
 	s.mustGit(h, "commit", "-q", "-am", "two")
 	s.mustGit(h, "update-ref", "refs/custom/thing", "HEAD")
+	// the host's own references whose names merely begin like git-bug's namespaces
+	s.mustGit(h, "update-ref", "refs/bugs-archive/thing", "HEAD")
+	s.mustGit(h, "update-ref", "refs/identities-old/thing", "HEAD~1")
 	if s.in.Host.Notes {
 		s.mustGit(h, "notes", "add", "-m", "a note", "HEAD")
 	}
@@ -384,7 +502,8 @@ func (s *c15Session) setupHost() {
 	rem := filepath.Join(s.root, "remote.git")
 	s.mustGit(s.root, "init", "-q", "--bare", "-b", "main", rem)
 	s.mustGit(h, "remote", "add", "origin", rem)
-	s.mustGit(h, "push", "-q", "origin", "main", "feature/x", "v1")
+	// ... among them ordinary branches whose names begin like the namespaces: refs/remotes/origin/bugs-triage is the host's
+	s.mustGit(h, "push", "-q", "origin", "main", "feature/x", "v1", "main:bugs-triage", "feature/x:bugsnag-upgrade", "main:identities-old")
 	s.mustGit(h, "fetch", "-q", "origin")
 	s.mustGit(h, "branch", "-q", "-u", "origin/main", "main")
 	// somebody else tagged, on the remote, a commit the host already has: a fetch that follows tags would create
@@ -394,7 +513,7 @@ func (s *c15Session) setupHost() {
 		rem2 := filepath.Join(s.root, "backup.git")
 		s.mustGit(s.root, "init", "-q", "--bare", "-b", "main", rem2)
 		s.mustGit(h, "remote", "add", "backup", rem2)
-		s.mustGit(h, "push", "-q", "backup", "main")
+		s.mustGit(h, "push", "-q", "backup", "main", "main:bugs-triage", "main:identities.bak")
 		s.mustGit(h, "fetch", "-q", "backup")
 	}
 	if s.in.Host.Stash {
@@ -448,6 +567,19 @@ func (s *c15Session) setupHost() {
 	if s.in.Host.Packed {
 		s.mustGit(h, "pack-refs", "--all")
 	}
+	s.objsBefore = s.objects()
+}
+
+// objects: every tree and commit object of the host's object store (loose or packed, reachable or not)
+func (s *c15Session) objects() map[string]string {
+	out := s.mustGit(s.host, "cat-file", "--batch-all-objects", "--batch-check=%(objectname) %(objecttype)", "--unordered")
+	m := map[string]string{}
+	for _, l := range strings.Split(out, "\n") {
+		if f := strings.Fields(l); len(f) == 2 && (f[1] == "tree" || f[1] == "commit") {
+			m[f[0]] = f[1]
+		}
+	}
+	return m
 }
 
 func (s *c15Session) cleanup() {
@@ -955,6 +1087,109 @@ func (s *c15Session) do(a c15Action) {
 			}
 			return err
 		})
+	case "multi":
+		// several operations staged on one bug and committed together (library only: the command line commits every
+		// operation on its own); the files of all the operations go into the one "extra" tree of that commit
+		create := a.S == "new"
+		id := ""
+		if !create {
+			if id = s.pick(bugs, a.E); id == "" {
+				ev["err"] = "no bug"
+				return
+			}
+		}
+		var ops [][]string
+		distinct := map[string]bool{}
+		stage := func(repo repository.TestedRepo, author *identity.Identity) (*bug.Bug, error) {
+			var b *bug.Bug
+			var err error
+			if !create {
+				if b, err = bug.Read(repo, entity.Id(id)); err != nil {
+					return nil, err
+				}
+			}
+			prevFirst := ""
+			for i, nf := range a.F {
+				var files []repository.Hash
+				var hs []string
+				first := ""
+				for j := 0; j < nf; j++ {
+					content := fmt.Sprintf("attachment %d of operation %d of action %d\n", j, i, s.counter)
+					if j == 0 && prevFirst != "" && (a.E>>uint(i))&1 == 1 {
+						content = prevFirst // a file an earlier operation of the same commit already brought
+						s.tags["multi:shared-file"] = true
+					}
+					if j == 2 && a.E%3 == 0 {
+						content = first // the same file twice in one operation
+						s.tags["multi:repeated-file"] = true
+					}
+					if j == 0 {
+						first = content
+					}
+					h, err := repo.StoreData([]byte(content))
+					if err != nil {
+						return nil, err
+					}
+					files = append(files, h)
+					hs = append(hs, string(h))
+					distinct[string(h)] = true
+				}
+				if nf > 0 {
+					prevFirst = first
+				}
+				msg := fmt.Sprintf("operation %d of action %d", i, s.counter)
+				switch {
+				case create && i == 0:
+					b, _, err = bug.Create(author, unix, "title of "+msg, msg, files, nil)
+				case nf == 0 && i%2 == 1:
+					_, err = bug.SetTitle(b, author, unix, "title by "+msg, nil)
+				case (a.E+i)%3 == 1:
+					_, _, err = bug.EditCreateComment(b, author, unix, "edited by "+msg, files, nil)
+				default:
+					_, _, err = bug.AddComment(b, author, unix, "comment, "+msg, files, nil)
+				}
+				if err != nil {
+					return nil, err
+				}
+				ops = append(ops, hs)
+			}
+			return b, nil
+		}
+		if !create {
+			ev["id"] = id
+		}
+		withUser(func(repo repository.TestedRepo, author *identity.Identity) error {
+			b, err := stage(repo, author)
+			if err != nil {
+				return err
+			}
+			if !create {
+				s.coq = append(s.coq, fmt.Sprintf("ACommit Bugs %s [%s]", coqRunes(id), c15Pack(len(distinct), false)))
+			}
+			if err := b.Commit(repo); err != nil {
+				if create {
+					s.coq = append(s.coq, fmt.Sprintf("AStorage [[%s]] []", coqRunes("clocks")))
+				}
+				return err
+			}
+			if create {
+				id = string(b.Id())
+				ev["id"] = id
+				s.coq = append(s.coq, fmt.Sprintf("ACommit Bugs %s [%s]", coqRunes(id), c15Pack(len(distinct), true)))
+			}
+			x := c15Extra{Ops: ops}
+			if out, err := s.git(s.host, "rev-parse", "-q", "--verify", "refs/bugs/"+id+"^{commit}"); err == nil {
+				x.Commit = strings.TrimSpace(out)
+				if out, err := s.git(s.host, "rev-parse", "-q", "--verify", x.Commit+":extra"); err == nil {
+					x.Tree = strings.TrimSpace(out)
+				}
+			}
+			s.extras = append(s.extras, x)
+			s.tags[fmt.Sprintf("multi:ops=%d", len(ops))] = true
+			s.tags[fmt.Sprintf("multi:files=%d", len(distinct))] = true
+			ev["files"] = ops
+			return nil
+		})
 	case "select":
 		id := s.pick(bugs, a.E)
 		s.coq = append(s.coq, fmt.Sprintf("AStorage [[%s]] [[%s]]", coqRunes("select"), coqRunes("select")))
@@ -1183,34 +1418,29 @@ type c15Entry struct {
 	Hash string
 }
 
-// trees reads, with stock git, every tree object reachable from git-bug's references.
-func (s *c15Session) trees() ([]c15Tree, error) {
-	var tips []string
-	for _, r := range s.refs() {
-		if c15InNs(r[0]) {
-			tips = append(tips, r[1])
+// written reads, with stock git, every tree and every commit object that appeared in the host's object store during
+// the session (written by git-bug or fetched by it; reachable or not, so that what a removed or wiped entity consisted
+// of is looked at too): the entries of the trees as stored, the author and committer lines of the commits.
+func (s *c15Session) written() (trees []c15Tree, idents [][2]string, err error) {
+	var ids []string
+	for id := range s.objects() {
+		if _, had := s.objsBefore[id]; !had {
+			ids = append(ids, id)
 		}
 	}
-	if len(tips) == 0 {
-		return nil, nil
+	if len(ids) == 0 {
+		return nil, nil, nil
 	}
-	cmd := exec.Command("git", "rev-list", "--objects", "--no-object-names", "--filter=blob:none", "--stdin")
+	sort.Strings(ids)
+	cmd := exec.Command("git", "cat-file", "--batch")
 	cmd.Dir = s.host
 	cmd.Env = s.env
-	cmd.Stdin = strings.NewReader(strings.Join(tips, "\n") + "\n")
-	out, err := cmd.Output()
-	if err != nil {
-		return nil, fmt.Errorf("rev-list: %v", err)
-	}
-	cmd = exec.Command("git", "cat-file", "--batch")
-	cmd.Dir = s.host
-	cmd.Env = s.env
-	cmd.Stdin = bytes.NewReader(out)
+	cmd.Stdin = strings.NewReader(strings.Join(ids, "\n") + "\n")
 	raw, err := cmd.Output()
 	if err != nil {
-		return nil, fmt.Errorf("cat-file: %v", err)
+		return nil, nil, fmt.Errorf("cat-file: %v", err)
 	}
-	var res []c15Tree
+	seen := map[[2]string]bool{}
 	for len(raw) > 0 {
 		nl := bytes.IndexByte(raw, '\n')
 		if nl < 0 {
@@ -1218,29 +1448,58 @@ func (s *c15Session) trees() ([]c15Tree, error) {
 		}
 		hdr := strings.Fields(string(raw[:nl]))
 		if len(hdr) != 3 {
-			return nil, fmt.Errorf("cat-file header %q", raw[:nl])
+			return nil, nil, fmt.Errorf("cat-file header %q", raw[:nl])
 		}
 		var size int
 		fmt.Sscan(hdr[2], &size)
+		if len(raw) < nl+1+size+1 {
+			return nil, nil, fmt.Errorf("cat-file: short object %s", hdr[0])
+		}
 		body := raw[nl+1 : nl+1+size]
 		raw = raw[nl+1+size+1:]
-		if hdr[1] != "tree" {
-			continue
-		}
-		t := c15Tree{ID: hdr[0]}
-		for len(body) > 0 {
-			sp := bytes.IndexByte(body, ' ')
-			nul := bytes.IndexByte(body, 0)
-			if sp < 0 || nul < sp || len(body) < nul+21 {
-				return nil, fmt.Errorf("malformed tree %s", hdr[0])
+		switch hdr[1] {
+		case "commit":
+			var id [2]string
+			for _, l := range strings.Split(string(body), "\n") {
+				if l == "" {
+					break
+				}
+				if strings.HasPrefix(l, "author ") && id[0] == "" {
+					id[0] = strings.TrimPrefix(l, "author ")
+				}
+				if strings.HasPrefix(l, "committer ") && id[1] == "" {
+					id[1] = strings.TrimPrefix(l, "committer ")
+				}
 			}
-			t.Entries = append(t.Entries, c15Entry{Mode: string(body[:sp]), Name: string(body[sp+1 : nul]), Hash: fmt.Sprintf("%x", body[nul+1:nul+21])})
-			body = body[nul+21:]
+			if !seen[id] {
+				seen[id] = true
+				idents = append(idents, id)
+			}
+		case "tree":
+			t := c15Tree{ID: hdr[0]}
+			for len(body) > 0 {
+				sp := bytes.IndexByte(body, ' ')
+				nul := bytes.IndexByte(body, 0)
+				if sp < 0 || nul < sp || len(body) < nul+21 {
+					return nil, nil, fmt.Errorf("malformed tree %s", hdr[0])
+				}
+				t.Entries = append(t.Entries, c15Entry{Mode: string(body[:sp]), Name: string(body[sp+1 : nul]), Hash: fmt.Sprintf("%x", body[nul+1:nul+21])})
+				body = body[nul+21:]
+			}
+			trees = append(trees, t)
 		}
-		res = append(res, t)
 	}
-	return res, nil
+	sort.Slice(idents, func(i, j int) bool {
+		if idents[i][0] != idents[j][0] {
+			return idents[i][0] < idents[j][0]
+		}
+		return idents[i][1] < idents[j][1]
+	})
+	return trees, idents, nil
 }
+
+// the shape git fsck demands of an author / committer line (for the tags and the notes; the verdict is computed in Coq)
+var c15IdentRe = regexp.MustCompile(`^[^<>\n]* <[^<>\n]*> (0|[1-9][0-9]*) [+-][0-9]{4}$`)
 
 func (s *c15Session) validity(after c15Snap) (fsck, clone, push bool, notes map[string]string) {
 	notes = map[string]string{}
@@ -1452,11 +1711,15 @@ func (c15Driver) Run(raw json.RawMessage) Case {
 		prev = cur
 	}
 	after := s.snapshot()
-	trees, terr := s.trees()
+	trees, idents, terr := s.written()
 	fsck, clone, push, notes := s.validity(after)
 	if terr != nil {
 		notes["trees"] = terr.Error()
 		fsck = false
+	}
+	treeByID := map[string]c15Tree{}
+	for _, t := range trees {
+		treeByID[t.ID] = t
 	}
 
 	// ---- tags
@@ -1554,6 +1817,37 @@ func (c15Driver) Run(raw json.RawMessage) Case {
 	if oddMode {
 		tags["tree:odd-mode"] = true
 	}
+	for _, t := range trees {
+		names := map[string]bool{}
+		for _, e := range t.Entries {
+			if names[e.Name] {
+				tags["tree:bad"] = true
+				notes["tree-duplicate-name"] = fmt.Sprintf("tree %s has two entries named %q", t.ID, e.Name)
+			}
+			names[e.Name] = true
+		}
+	}
+	var badIdents []string
+	for _, id := range idents {
+		for _, l := range id {
+			if !c15IdentRe.MatchString(l) {
+				badIdents = append(badIdents, l)
+			}
+		}
+	}
+	if len(badIdents) > 0 {
+		tags["ident:bad"] = true
+		if len(badIdents) > 4 {
+			badIdents = badIdents[:4]
+		}
+		notes["malformed-author-or-committer-lines"] = strings.Join(badIdents, " | ")
+	}
+	if in.Host.Ident != "" {
+		tags["host:ident="+in.Host.Ident] = true
+	}
+	if len(s.extras) > 0 {
+		tags["multi:commits"] = true
+	}
 	loss, other := false, false
 	for t := range tags {
 		if strings.HasPrefix(t, "cfgloss:") {
@@ -1599,6 +1893,11 @@ func (c15Driver) Run(raw json.RawMessage) Case {
 			ds = append(ds, e.Hash)
 		}
 	}
+	for _, x := range s.extras {
+		for _, op := range x.Ops {
+			ds = append(ds, op...)
+		}
+	}
 	rk := rankOf(ds)
 	var tts []string
 	for _, t := range trees {
@@ -1608,8 +1907,57 @@ func (c15Driver) Run(raw json.RawMessage) Case {
 		}
 		tts = append(tts, coqList(es))
 	}
-	term := fmt.Sprintf("mkcase %s %s %s %s %s %s %s", c15SnapTerm(before, rk), c15SnapTerm(after, rk), coqList(s.coq), coqList(tts),
-		coqBool(fsck), coqBool(clone), coqBool(push))
+	entriesTerm := func(t c15Tree) string {
+		es := make([]string, len(t.Entries))
+		for i, e := range t.Entries {
+			es[i] = fmt.Sprintf("mkentry %s %s %d%%N", coqBool(e.Mode == "40000"), coqRunes(e.Name), rk.m[e.Hash])
+		}
+		return coqList(es)
+	}
+	// commits of several operations: the files of each operation, the "extra" tree as stored
+	var xts []string
+	for _, x := range s.extras {
+		ops := make([]string, len(x.Ops))
+		for i, op := range x.Ops {
+			hs := make([]string, len(op))
+			for j, h := range op {
+				hs[j] = fmt.Sprintf("%d%%N", rk.m[h])
+			}
+			ops[i] = coqList(hs)
+		}
+		stored := "[]"
+		if x.Tree != "" {
+			t, ok := treeByID[x.Tree]
+			if !ok {
+				panic("harness: the extra tree " + x.Tree + " of commit " + x.Commit + " is not among the objects written during the session")
+			}
+			stored = entriesTerm(t)
+		}
+		xts = append(xts, "("+coqList(ops)+", "+stored+")")
+	}
+	// author and committer lines of the commits; what the configurations that were in force say about the person
+	var its []string
+	for _, id := range idents {
+		its = append(its, "("+coqRunes(id[0])+", "+coqRunes(id[1])+")")
+	}
+	identCfg := func(cfg [][2]string) string {
+		var xs []string
+		for _, kv := range cfg {
+			switch kv[0] {
+			case "user.name", "user.email", "author.name", "author.email", "committer.name", "committer.email":
+				v := kv[1]
+				if v == "\x00" {
+					v = ""
+				}
+				xs = append(xs, "("+coqRunes(kv[0])+", "+coqRunes(v)+")")
+			}
+		}
+		return coqList(xs)
+	}
+	// the peer's repository is made by newTestRepo (world.go): user.name and user.email only
+	peerCfg := identCfg([][2]string{{"user.name", "testuser"}, {"user.email", "testuser@example.com"}})
+	term := fmt.Sprintf("mkcase %s %s %s %s %s %s %s %s %s %s %s", c15SnapTerm(before, rk), c15SnapTerm(after, rk), coqList(s.coq), coqList(tts),
+		coqBool(fsck), coqBool(clone), coqBool(push), coqList(xts), coqList(its), identCfg(before.Cfg), peerCfg)
 
 	var tl []string
 	for t := range tags {
@@ -1618,6 +1966,6 @@ func (c15Driver) Run(raw json.RawMessage) Case {
 	sort.Strings(tl)
 	obs := map[string]interface{}{"actions": s.log, "first_disturbing_action": firstDisturb, "foreign_config_changes": cfgDetail,
 		"foreign_ref_changes": refDetail, "fsck": fsck, "clone_gc_fsck": clone, "push_with_receive_fsck": push, "notes": notes,
-		"refs_after": len(after.Refs), "trees": len(trees)}
+		"refs_after": len(after.Refs), "trees": len(trees), "author_committer_lines": len(idents), "multi_operation_commits": len(s.extras)}
 	return Case{Coq: term, Obs: obs, Tags: tl, NonTrivial: s.wrote, Key: string(raw)}
 }
